@@ -34,7 +34,7 @@ TRANSFORMS = ["rebuild", "dup", "update", "json", "rebuild+json", "dup+rebuild"]
 EDITS = ["alter_value", "add_value", "remove_value", "change_formal", "change_id", "drop_id", "add_record",
          "remove_record", "add_empty_bundle", "add_bundle", "remove_bundle", "add_member", "remove_member", "swap_type"]
 REQUIRED_CLASSES = {"all": ["edit:" + e for e in EDITS] + ["transform:" + t for t in TRANSFORMS] +
-                    ["pair:equal", "pair:different", "records:eq_pairs"]}
+                    ["pair:equal", "pair:different", "records:eq_pairs", "mode:mutate_after_compare"]}
 
 SWAPS = {"Entity": "Agent", "Agent": "Entity", "Generation": "Invalidation", "Invalidation": "Usage",
          "Usage": "Generation", "Start": "End", "End": "Start", "Attribution": "Membership",
@@ -72,7 +72,12 @@ def strategy(tier):
                        base, st.sampled_from(EDITS), sel, gen.value("json", ["str", "int", "float", "bool", "dt", "uri", "qn", "lang", "lit"]),
                        gen.name_ref("json", "id", ("qn",)))
     p_case = st.builds(lambda a, b: {"mode": "P", "recipe": a, "recipe2": b}, _tiny_recipe(), _tiny_recipe())
-    return st.one_of(t_case, e_case, e_case, p_case)
+    # M: compare (which hashes every record), THEN mutate through every public mutator, then compare with a document
+    # built directly from the final content - stale cached hashes / equality state would show up here
+    from . import c05
+    m_case = st.builds(lambda r, f, o: {"mode": "M", "recipe": r, "follow": f, "order": o}, base,
+                       st.lists(c05.follow_up_op(), min_size=1, max_size=4), sel)
+    return st.one_of(t_case, e_case, e_case, p_case, m_case)
 
 
 # ---------------------------------------------------------------------------- reference relation
@@ -343,6 +348,29 @@ def check(case, ctx):
         # prov-compare on a sample of pairs (subprocess, ~0.4 s): exit status 0 iff equal, 1 iff different
         if case["sel"][5] % 40 == 0 and not items:
             _prov_compare(d0, d1, ref, items, ctx)
+    elif mode == "M":
+        from . import c05
+        twin0 = construct(c0, None, style=2)
+        compare(d0, twin0, True, "before_mutation", items)
+        for c_ in [d0] + list(d0.bundles):
+            for r in c_.get_records():
+                hash(r)
+        dummy = []
+        for op in case["follow"]:
+            if op[0] in ("readd", "set_time", "asserted_type"):
+                c05._c05_op(b, op, dummy, ctx)
+            else:
+                from ..build import apply_op
+                apply_op(b, op)
+        c1 = content_of(b)
+        if kind_clash(c1):
+            ctx.count("discarded:kind_clash")
+            return []
+        d1 = construct(c1, case["order"], style=1)
+        ref = compare_all(d0, c1, d1, c1, items, ctx)
+        compare(d0, twin0, lossy(c0) == lossy(c1), "stale_twin", items)
+        ctx.count("mode:mutate_after_compare")
+        ctx.nontrivial(lossy(c0) != lossy(c1))
     else:
         b2 = build(case["recipe2"])
         c2 = content_of(b2)
